@@ -23,6 +23,29 @@ def run_rules(prop: str, repo: str, tier: str) -> report.Context:
     return ctx
 
 
+def _watchdog(prop: str) -> None:
+    """A check that does not terminate (or eats the machine) is broken, not a verdict: bound time and address space and
+    report it as an analysis error."""
+    import resource
+    import signal
+
+    limit = int(os.environ.get('FV_TIMEOUT', '1500'))
+
+    def expired(signum, frame):  # pylint: disable=unused-argument
+        print(f'ANALYSIS-ERROR property={prop}: analysis did not finish within {limit}s')
+        os._exit(2)  # pylint: disable=protected-access
+
+    try:
+        signal.signal(signal.SIGALRM, expired)
+        signal.alarm(limit)
+        soft = int(os.environ.get('FV_MEMORY_GB', '12')) * 1024 ** 3
+        hard = resource.getrlimit(resource.RLIMIT_AS)[1]
+        if hard == resource.RLIM_INFINITY or soft < hard:
+            resource.setrlimit(resource.RLIMIT_AS, (soft, hard))
+    except (ValueError, OSError):  # not the main thread / not permitted: run unguarded
+        pass
+
+
 def main(argv=None) -> int:
     ap = argparse.ArgumentParser(prog='check')
     ap.add_argument('property')
@@ -33,6 +56,7 @@ def main(argv=None) -> int:
     args = ap.parse_args(argv)
     started = time.time()
     seed = int(os.environ.get('VERIF_SEED', '0') or 0)
+    _watchdog(args.property)
     prop = args.property
     try:
         mod = importlib.import_module(f'fv.rules.{prop}')
@@ -64,6 +88,9 @@ def main(argv=None) -> int:
         return report.finish(ctx, started, seed, mod.EXPLANATION, list(getattr(mod, 'ASSUMPTIONS', [])), extra)
     except core.AnalysisError as err:
         print(f'ANALYSIS-ERROR property={prop}: {err}')
+        return 2
+    except MemoryError:
+        print(f'ANALYSIS-ERROR property={prop}: analysis ran out of memory')
         return 2
     except Exception:  # a crash of the checker is never a verdict on the property
         traceback.print_exc()
